@@ -62,6 +62,49 @@ def _remove_node(spec, name):
     return s
 
 
+def _bypass_node(spec, name):
+    """delete a node by re-wiring: consumers that read it through a plain Input read its first plain Input instead"""
+    if name in (spec['input'], spec['output']):
+        return None
+    s = copy.deepcopy(spec)
+    node = next((n for n in s['nodes'] if n['name'] == name), None)
+    if node is None or node.get('rec') or node.get('add_data'):
+        return None
+    srcs = [m[1] for _, m in node.get('params', ()) if m[0] == 'In']
+    if not srcs:
+        return None
+    src = srcs[0]
+    for n in s['nodes']:
+        if n is node:
+            continue
+        used = set()
+        for _, m in n.get('params', ()):
+            if m[0] == 'In':
+                used.add(m[1])
+            elif m[0] == 'Switch':
+                if m[2] == name or any(c == name for _, c in m[3]):
+                    return None
+                used.add(m[2])
+                used.update(c for _, c in m[3])
+            elif m[0] == 'OneOf':
+                if name in m[1]:
+                    return None
+                used.update(m[1])
+            elif m[0] == 'Rec':
+                if name in (m[1], m[2]):
+                    return None
+                used.add(m[2])
+        for p in n.get('params', ()):
+            if p[1][0] == 'In' and p[1][1] == name:
+                if src in used:
+                    return None
+                p[1][1] = src
+    s['nodes'] = [n for n in s['nodes'] if n['name'] != name]
+    keep = reachable(s)
+    s['nodes'] = [n for n in s['nodes'] if n['name'] in keep]
+    return s
+
+
 def _simplify_node_variants(spec, idx):
     n = spec['nodes'][idx]
     out = []
@@ -138,12 +181,16 @@ def shrink(prop, replay, budget_s=15.0):
         for name in [n['name'] for n in reversed(case['spec']['nodes'])]:
             if timeup():
                 break
-            s = _remove_node(case['spec'], name)
-            if s is None or len(s['nodes']) < 1:
-                continue
-            c = copy.deepcopy(case)
-            c['spec'] = s
-            if attempt(c):
+            done = False
+            for s in (_remove_node(case['spec'], name), _bypass_node(case['spec'], name)):
+                if s is None or len(s['nodes']) < 1:
+                    continue
+                c = copy.deepcopy(case)
+                c['spec'] = s
+                if attempt(c):
+                    done = True
+                    break
+            if done:
                 progress = True
                 break
     for idx in range(len(case['spec']['nodes'])):
